@@ -65,7 +65,7 @@ typedef struct { DString * buf; const char * buf_str; int step; bool header, foo
 #define FMT_EXT ".html"
 #endif
 static rec g_r[NF]; static int g_cur = -1; static char g_name[NF][8]; static char g_orig[NF][8]; static FILE * g_out[NF]; static FILE * g_stdout_obj; static int g_scans, g_stdin; static bool g_stdin_mode;
-static bool g_concat; static DString * g_work; static char g_content[4];
+static bool g_concat; static DString * g_work; static char g_content[8]; static size_t g_clen;
 static rec * cur(void);
 /* which DString the steps must work on: the text scan_file/stdin_buffer returned; in the concatenation mode (files without -b) the
  * buffer main() builds from the files -- one and the same object through all steps */
@@ -74,7 +74,7 @@ static rec * cur(void) { ASSERT(g_cur >= 0 && g_cur < NF, "ghost: a file is bein
 static DString * mkds(size_t n) { DString * d = malloc(sizeof(DString)); d->str = malloc(n + 1); d->str[n] = 0; d->currentStringLength = n; d->currentStringBufferSize = n + 1; return d; }
 DString * scan_file(const char * fname) {
 	g_cur++; ASSERT(g_cur < NF && fname == g_file_names[g_cur], "(S) the files are read in command-line order, each once");
-	g_scans++; g_r[g_cur].buf = mkds(3); for (int i = 0; i < 3; i++) { char c; ASSUME(c != 0); g_r[g_cur].buf->str[i] = c; g_content[i] = c; } return g_r[g_cur].buf;
+	g_scans++; g_r[g_cur].buf = mkds(3); for (int i = 0; i < 3; i++) { char c; ASSUME(c != 0); g_r[g_cur].buf->str[i] = c; if (g_clen < 8) { g_content[g_clen++] = c; } } return g_r[g_cur].buf;
 }
 DString * stdin_buffer(void) { g_cur++; g_stdin++; ASSERT(g_cur == 0, "stdin is read once"); g_r[0].buf = mkds(3); g_r[0].buf_str = g_r[0].buf->str; return g_r[0].buf; }
 void mmd_prepend_mmd_header(DString * s) { rec * r = cur(); ASSERT(src_ok(r, s) && r->step == 0, "(S) header first"); r->header = true; r->step = 1; }
@@ -84,7 +84,7 @@ void mmd_critic_markup_accept(DString * s) { rec * r = cur(); ASSERT(src_ok(r, s
 void mmd_critic_markup_reject(DString * s) { rec * r = cur(); ASSERT(src_ok(r, s) && r->step <= 4 && !r->conv, "(S) CriticMarkup reject before the conversion"); r->reject = true; r->step = 5; }
 DString * mmd_d_string_convert_to_data(DString * source, unsigned long extensions, short format, short language, const char * directory) {
 	rec * r = cur(); ASSERT(src_ok(r, source) && !r->conv, "(S) the text read for this file is converted, once");
-	if (g_concat) { ASSERT(source->currentStringLength == 3 && source->str[0] == g_content[0] && source->str[1] == g_content[1] && source->str[2] == g_content[2], "(S) the text converted is the file's text (concatenation of one file)"); }
+	if (g_concat) { bool same = source->currentStringLength == g_clen; for (size_t i = 0; i < 8; i++) { if (i < g_clen && same && source->str[i] != g_content[i]) { same = false; } } ASSERT(same, "(S) the text converted is the files' texts, concatenated in command-line order"); }
 	r->conv = true; r->ext = extensions; r->format = format; r->lang = language; r->folder = directory;
 	IN(size_t, n); ASSUME(n <= 4); r->result = mkds(n); return r->result;
 }
@@ -229,3 +229,21 @@ void h_cli_meta(void) {
 	REACH();
 }
 #endif
+
+/* two input files without -b: their texts are concatenated in command-line order and converted as ONE document to stdout */
+void h_cli_concat2(void) {
+	g_batch = false; g_stdin_mode = true; g_concat = true; setup_options(false);
+	{ const char a[8] = "a/x.md", b[8] = "bb/y.t"; for (int i = 0; i < 8; i++) { g_name[0][i] = a[i]; g_name[1][i] = b[i]; } }
+	g_file_names[0] = g_name[0]; g_file_names[1] = g_name[1]; g_files.count = 2; g_o_name[0] = NULL;
+	char * argv[1] = { "mmd" };
+	int rc = main(1, argv);
+	unsigned long want = spec_extensions();
+	ASSERT(rc == 0 && g_scans == 2 && g_stdin == 0, "both files are read");
+	rec * r = &g_r[1];
+	ASSERT(r->conv && !g_r[0].conv, "(S) ONE conversion, of the concatenated text");
+	ASSERT(r->ext == want, "(E) the extensions handed to the library are the documented function of the options");
+	ASSERT(!r->trans, "(S) no transclusion when more than one file is given (there is no single base directory)");
+	ASSERT(r->folder == NULL, "(F) no asset folder for several files");
+	ASSERT(r->opened == NULL && r->writes == 1 && r->write_ok, "(O) the result goes to stdout, written once in full with fwrite");
+	REACH();
+}
